@@ -55,6 +55,9 @@ pub enum Corruption {
 #[derive(Clone, Debug, Serialize, Deserialize)]
 pub struct Case {
     pub ebgp: bool,
+    /// session-rib only: the external peer is a route-server client (still an eBGP peer)
+    #[serde(default)]
+    pub rs_client: bool,
     pub two_byte_as: bool,
     pub fam: u8,
     /// family of the MP_UNREACH attribute (may differ from the MP_REACH family)
@@ -752,7 +755,9 @@ pub fn arb_case(max_corruptions: usize) -> impl Strategy<Value = Case> {
         // the decoder only applies MP_REACH to a family it negotiated; flowspec has no next hop
         let family = fam_of(fam);
         let nh_v6 = nh_v6 && family.afi() != Family::AFI_IP;
-        Case { ebgp, two_byte_as, fam, unreach_fam, withdrawn, nlri, mp_reach, mp_unreach, nh_v6, attrs, as4_path, corruptions }
+        // (derived, so that the strategy's shape and earlier replays are unchanged)
+        let rs_client = ebgp && (fam as usize + withdrawn.len() + nlri.len()) % 3 == 0;
+        Case { ebgp, rs_client, two_byte_as, fam, unreach_fam, withdrawn, nlri, mp_reach, mp_unreach, nh_v6, attrs, as4_path, corruptions }
     })
 }
 
@@ -804,8 +809,8 @@ async fn session(c: &Case) -> CheckResult {
     let fam = fam_of(c.fam);
     let ufam = fam_of(c.unreach_fam.unwrap_or(c.fam));
     let peer_as: u32 = if c.ebgp { 65100 } else { 65000 };
-    let src = IpAddr::V4(Ipv4Addr::new(127, 0, 5, 2));
-    let cfg = NeighborCfg { addr: src, remote_asn: peer_as, local_asn: 0, rs_client: false, rr_client: false, cluster_id: None, admin_down: false, holdtime: 90, families: ALL_FAMILIES.iter().map(|f| (*f, 0)).collect(), prefix_limit: None, gr: None, llgr: None };
+    let src = crate::props::wirepeer::fresh_loopback();
+    let cfg = NeighborCfg { addr: src, remote_asn: peer_as, local_asn: 0, rs_client: c.ebgp && c.rs_client, rr_client: false, cluster_id: None, admin_down: false, holdtime: 90, families: ALL_FAMILIES.iter().map(|f| (*f, 0)).collect(), prefix_limit: None, gr: None, llgr: None };
     let mut p = WirePeer::new(65000, cfg).await?;
     p.connect().await?;
     let mut caps = vec![Capability::MultiProtocol(Family::IPV4)];
@@ -904,6 +909,19 @@ async fn session(c: &Case) -> CheckResult {
             }
         }
         info = info.class("session/treat-as-withdraw-observed");
+    }
+    // (2b) iBGP-only attributes received from an external peer are dropped, not believed
+    if c.ebgp {
+        let (held, _) = crate::table_manager::verif::rib_views(&p.rig.tables);
+        let me = format!("{src}|");
+        for (k, (_, attrs)) in held.iter().filter(|(k, _)| k.starts_with(&me)) {
+            if let Some(a) = attrs.iter().find(|a| matches!(a.code(), 5 | 9 | 10)) {
+                return Err(wit(Failure::new("ibgp-attr-from-ebgp", format!("{k}: attribute {} received from an external peer ({}) is held in the Adj-RIB-In", a.code(), if c.rs_client { "route-server client" } else { "eBGP" })).with("rs_client", c.rs_client).with("attr_code", a.code())));
+            }
+        }
+        if c.rs_client {
+            info = info.class("session/route-server-client");
+        }
     }
     // (3) what the UPDATE does not mention is untouched
     if !post.contains(&key(Family::IPV4, &bystander)) {
